@@ -59,6 +59,6 @@ def run(ctx):
     distinct = st.get("distinct_nonempty_layouts", 0)
     ctx.finish(len(cases), distinct,
                "endpoint layouts (0-3 slices x 0-3 entries, ready/serving in {nil,T,F}, node in {me,b,c,nil}, 0-2 addresses per entry from 3) "
-               "x 0-2 advertisements with node maps, each evaluated on 24 combinations of node state x ignore flag x policy; "
+               "x 0-2 advertisements with node maps, each evaluated on 32 combinations (exclude label with four different values) of node state x ignore flag x policy; "
                "thorough adds every layout of <= 3 entries over the (reduced for 3) entry alphabet; non-trivial = at least one entry; distinct by JSON",
                [c["in"] for c in cases[:3]], search=search)
